@@ -162,7 +162,7 @@ static RunSpec derive_spec(const std::string& world, int variant, uint64_t run_s
   GenCfg g;
   g.thorough = thorough;
   g.max_log2n = 6;
-  g.max_big_log2n = thorough ? 16 : 12;
+  g.max_big_log2n = thorough ? 16 : 14;
   g.big_n_pct = thorough ? 6 : 3;
   static const int masks[] = {MASK_ALL, MASK_ALL, MASK_NONE, MASK_FMA, MASK_AVX2};
   if (world == "c16") {
@@ -190,6 +190,7 @@ static RunSpec derive_spec(const std::string& world, int variant, uint64_t run_s
     g.module_ops = true;
     g.table_ops = true;
     g.kernel_pairs = true;
+    g.tiny_values = true;
     g.zero_sizes = true;
     g.min_calls = 6;
     g.max_calls = 30;
@@ -203,6 +204,8 @@ static RunSpec derive_spec(const std::string& world, int variant, uint64_t run_s
     g.q120 = true;
     g.life_ops = true;
     g.lib_alloc_slots = true;
+    g.allow_ties = true;
+    g.tiny_values = true;
     g.zero_sizes = true;
     g.min_calls = 8;
     g.max_calls = 28;
@@ -215,6 +218,8 @@ static RunSpec derive_spec(const std::string& world, int variant, uint64_t run_s
     g.repeats = true;
     g.small_pools = true;
     g.history_mode = true;
+    g.allow_ties = true;
+    g.tiny_values = true;
     g.zero_sizes = true;
     g.ntasks = 1 + (int)rc.below(4);
     g.min_calls = 50;
@@ -235,8 +240,8 @@ static RunSpec derive_spec(const std::string& world, int variant, uint64_t run_s
     g.min_calls = 1;
     g.max_calls = 6;
     g.max_log2n = 6;
-    g.big_n_pct = thorough ? 3 : 0;
-    g.max_big_log2n = 12;
+    g.big_n_pct = thorough ? 3 : 1;
+    g.max_big_log2n = thorough ? 13 : 14;
     s.warm = rc.chance(1, 2);
     uint64_t pk = rc.below(100);
     if (pk < 55) {
@@ -302,6 +307,7 @@ static void add_exec_stats(Json& st, const Exec& e) {
   add("fresh_twins", e.n_twin);
   add("model_coeffs_checked", e.n_model_checks);
   add("adjacent_buffers", e.n_adjacent);
+  add("fpenv_checks", e.n_fpenv_checks);
   static const char* fn[] = {"fill_zero", "fill_ff", "fill_qnan", "fill_snan", "fill_random", "fill_a5"};
   for (int i = 0; i < SIM_FILL_NKINDS; ++i) add(fn[i], e.n_prefill[i]);
   for (int i = 0; i < 8; ++i) add((std::string("off") + std::to_string(i * 8)).c_str(), e.n_off[i]);
@@ -445,6 +451,7 @@ static bool close_enough(const Program& P, const Call& c, const uint8_t* pa, con
     case OP_CPLX_ADDMUL:
     case OP_R4_ADDMUL: {
       double bound = ldexp(1.0, -48) * (ldexp(1.0, (int)(bits_of(1) + bits_of(2) + 1)) + (op_info[c.op].roles[0] == 'x' ? ldexp(1.0, (int)bits_of(0)) : 0));
+      if (bound < ldexp(1.0, -1068)) bound = ldexp(1.0, -1068);  // a few units of the smallest subnormal
       for (uint64_t i = 0; i < n; ++i)
         if (!(fabs(A[i] - B[i]) <= bound)) {
           if (why) *why = "pointwise product differs by more than 32 eps * (|a||b| + |r|)";
